@@ -297,6 +297,9 @@ func enumerate(thorough bool) *enumeration {
 			e.addProc("pair", []string{st[i], st[k]}, baseArch)
 		}
 	}
+	// (opcode lists are always sorted by name here: every front end sorts them, C16 makes sortedness part of what the
+	// HDL generator relies on, and the unchanged generator itself assumes it — r2v/r2vri decide which of them opens
+	// and closes their common always block from the alphabetical order — so unsorted lists are outside the premise)
 	// static x dynamic pairs (one representative per dynamic opcode kind) on the base architecture
 	for _, f := range dynFamilies {
 		for _, d := range f.Members[0] {
